@@ -98,6 +98,8 @@ func init() {
 				Bound: fmt.Sprintf("all edge lists with %d edges x {greedy,dfs} x {ns,lp} x 4 size-aware positioners x splines x {fixed, per-node mixed-parity widths}", d)},
 			{Name: "G-deep", Space: spaceG(d+1, d+1, tierPick(tier, 0, 5), nil), Eval: stdEval("C05", staticGrid(g5), or),
 				Bound: fmt.Sprintf("all edge lists with %d edges x {greedy,dfs} x {ns,lp} x {sink,valign,packright,bk} x {polyline,ortho} x per-node sizes (even and mixed-parity widths)", d+1)},
+			{Name: "G3-spacings", Space: spaceG(1, 3, 0, nil), Eval: stdEval("C05", staticGrid(gridSpec{P1: []int{0}, P2: allP2, P4: []int{0, 1, 2, 3, 4}, P5: []int{1, 2, 3, 4}, SZ: []int{1, 2}, SP: spAll}.list()), or),
+				Bound: "all edge lists with <=3 edges x greedy x {ns,lp} x {sink,valign,packright,ns,bk} x every router x {fixed, per-node} sizes x spacings {(4,8),(0,8),(4,0),(0,0)}"},
 			{Name: "G6n4", Space: spaceG(6, 6, 4, nil), Eval: stdEval("C05", staticGrid(gridSpec{P1: allP1, P2: []int{0}, P4: []int{1}, P5: []int{2}, SZ: []int{1}}.list()), or),
 				Bound: "all edge lists with 6 edges on <=4 nodes (dense cyclic multigraphs: edges reversed by the two-node-cycle pass AND by the cycle breaker) x {greedy,dfs} x ns x valign x polyline"},
 			{Name: "G-random-greedy", Space: spaceG(1, 4, 0, cyclic), Eval: stdEval("C05", staticGrid(gridSpec{P1: []int{2}, P2: allP2, P4: []int{0}, P5: []int{2}, SZ: []int{2}}.list()), or),
@@ -126,6 +128,10 @@ func init() {
 		ps := []*Pass{
 			{Name: "G-grid", Space: spaceG(1, d, 0, nil), Eval: stdEval("C06", staticGrid(g), or),
 				Bound: fmt.Sprintf("all edge lists with <=%d edges x {greedy,dfs} x {ns,lp} x 4 size-aware positioners x {straight,polyline,ortho, polyline+virtual-node output} x {fixed,per-node}", d)},
+			{Name: "G3-spacings", Space: spaceG(1, 3, 0, nil), Eval: stdEval("C06", staticGrid(gridSpec{P1: []int{0}, P2: allP2, P4: saP4, P5: []int{1, 2, 3, 4}, SZ: []int{1, 2}, SP: spAll}.list()), or),
+				Bound: "all edge lists with <=3 edges x greedy x {ns,lp} x 4 size-aware positioners x every router x {fixed, per-node} sizes x spacings {(4,8),(0,8),(4,0),(0,0)}"},
+			{Name: "macro-3", Space: spaceMacro(3, false), Eval: stdEval("C06", staticGrid(gridSpec{P1: []int{0}, P2: allP2, P4: []int{0, 1}, P5: []int{2, 3}, SZ: []int{2}}.list()), or),
+				Bound: "every graph built by <=3 gadget insertions (shapes with up to 13 edges) x greedy x {ns,lp} x {sink,valign} x {polyline,ortho} x per-node sizes"},
 			{Name: "G-bk", Space: spaceG(1, 4, 0, nil), Eval: stdEval("C06", staticGrid(gbk), or),
 				Bound: "all edge lists with <=4 edges x b&k {balanced,0,3} x {straight,polyline,ortho} (bend-inside-node clause not applied to b&k)"},
 			{Name: "G-splines", BudgetS: 5, HeapMB: 256, Space: spaceG(1, d-1, 0, nil), Eval: stdEval("C06", staticGrid(gs), or),
